@@ -1,7 +1,8 @@
 """C05 — algorithm results equal the documented function of their children's results (dev stub)."""
-import k2
+import k2, k2v2
 LEVEL = "proof"
 def run(chk, replay=None):
     chk.cov["rule"] = "K2: generated expressions x scripts; non-trivial = has stop/error/done"
     chk.prove()
     k2.standard_k2(chk)
+    k2v2.standard_k2v2(chk)   # second-generation model Calc2: more algorithms and throwing value copies (tie; theorems Properties_*_calc2.v)
